@@ -544,7 +544,7 @@ def run_plan(plan):
     stats["sim_ns"] = sim.clock.advanced
     stats["steps"] = sim.steps
     stats["op:" + op + "/" + plan["transport"]] = 1
-    stats["policy:" + plan["sched"]["policy"]] = 1
+    stats["policy:" + plan["sched"].get("policy", "trace")] = 1
     return {"violations": out, "digest": sim.digest(), "ihash": ih,
             "nontrivial": nontrivial, "trace": sim.trace_out, "stats": stats,
             "events": sim.events,
